@@ -18,9 +18,9 @@ demopkg=$(head -5 $demo | grep -E "^package " | awk '{print $2}')
 case "$demopkg" in sts) d=. ;; main) d=main ;; *) d=$demopkg ;; esac
 d=${d%_test}
 cp $demo $wt/$d/
-with=$(cd $wt && go test -vet=off -count=1 -timeout 300s -run 'TestSeed' ./$d/ 2>&1 | tail -3)
+with=$(cd $wt && go test -vet=off -count=1 -timeout 300s -run 'Seed' ./$d/ 2>&1 | tail -3)
 git apply -R $out/patch.diff
-without=$(cd $wt && go test -vet=off -count=1 -timeout 300s -run 'TestSeed' ./$d/ 2>&1 | tail -3)
+without=$(cd $wt && go test -vet=off -count=1 -timeout 300s -run 'Seed' ./$d/ 2>&1 | tail -3)
 rm -f $wt/$d/$(basename $demo)
 mkdir -p $dst
 cp $out/patch.diff $dst/; cp $demo $dst/; cp $out/README.md $dst/ 2>/dev/null
